@@ -19,7 +19,8 @@ RULE = (
     "one bin containing it; column sums are 1 when the cell lies within the bins; weights >= 0; merging two adjacent bins "
     "adds their rows; reversed bins reverse the rows. Grid.transform(method='conservative') is run with target_data on "
     "outer or on center (bounds = model interp with extension), random extra dims/order, eagerly and dask-chunked over "
-    "non-axis dims under synchronous and threaded schedulers, and compared with W applied to the data. Class = (path, n, "
+    "non-axis dims under synchronous and threaded schedulers, and compared with W applied to the data; the caller's data, "
+    "target_data and bins are byte-identical afterwards and an immediate second call returns the same. Class = (path, n, "
     "#bins, direction, #columns, has homogeneous cell, has value on a bin edge, inside span); non-trivial iff some cell "
     "overlaps two bins or is homogeneous."
 )
@@ -110,10 +111,21 @@ def run_case(ctx, desc):
     ctx.judged(features(desc), nontrivial)
     phi = np.broadcast_to(np.eye(n)[:, None, :], (n, ncol, n)).copy()  # [unit i, column, cell]
     th = np.broadcast_to(np.array(thetas, float)[None], (n, ncol, n + 1)).copy().astype(desc.get("tdtype", "float64"))
+    keep = (phi.copy(), th.copy(), b.copy())
     try:
         out = T.interp_1d_conservative(phi, th, b)  # [unit i, column, bin]
+        again = T.interp_1d_conservative(phi, th, b)
     except Exception as e:
         ctx.violation("kernel-returns", f"interp_1d_conservative raised {type(e).__name__}: {str(e)[:200]}")
+        return
+    # the caller's (writable) arrays come back untouched and the same call again gives the same
+    ctx.judged(("inputs-untouched", "kernel", desc["decreasing"]), True)
+    for nm, now, was in zip(("phi", "theta", "bins"), (phi, th, b), keep):
+        if not np.array_equal(now, was):
+            ctx.violation("inputs-untouched", f"kernel: the caller's {nm} array was modified by the call")
+            return
+    if not np.array_equal(np.asarray(out), np.asarray(again), equal_nan=True):
+        ctx.violation("inputs-untouched", "kernel: the same call on the same arrays gives a different result the second time")
         return
     if out.shape != (n, ncol, m):
         ctx.violation("output-shape", f"shape {out.shape}, expected {(n, ncol, m)}")
@@ -203,13 +215,24 @@ def run_grid(ctx, desc, nontrivial):
     if desc["dask"]:
         da = da.chunk({"col": 1, "e": 1})
         td = td.chunk({"col": 1})
+    tdv = np.array(td.values)
+    keep = (data.copy(), tdv.copy(), b.copy())
     try:
         with dask.config.set(scheduler=desc["dask"] or "synchronous"):
             r = g.transform(da, "Z", target, target_data=td, method="conservative")
             r = r.compute()
+            r_again = g.transform(da, "Z", target, target_data=td, method="conservative").compute()
     except Exception as ex:
         ctx.violation("transform-returns", f"Grid.transform(conservative, target_data on {'center' if on_center else 'outer'}, positions {pos}, dask={desc['dask']}) "
                                            f"raised {type(ex).__name__}: {str(ex)[:250]}")
+        return
+    ctx.judged(("inputs-untouched", "grid", on_center, bool(desc["dask"])), True)
+    for nm, now, was in zip(("data", "target_data", "target"), (data, np.asarray(td.values), np.asarray(target)), keep):
+        if not np.array_equal(np.asarray(now, float), np.asarray(was, float)):
+            ctx.violation("inputs-untouched", f"conservative transform: the caller's {nm} was modified by the call")
+            return
+    if r_again.dims != r.dims or not np.array_equal(r_again.values, r.values, equal_nan=True):
+        ctx.violation("inputs-untouched", "conservative transform: the same call on the same objects gives a different result the second time")
         return
     if newdim not in r.dims or r.sizes[newdim] != m:
         ctx.violation("output-shape", f"result dims {dict(r.sizes)}, expected new dim {newdim} of size {m}")
